@@ -1,0 +1,516 @@
+//go:build verif
+
+package ast
+
+// Read-only inspection of ast.Node internals for the /verif correspondence checks (C14, C15).
+// Nothing here is compiled without the build tag `verif`; no existing line is touched.
+//
+//   VerifCanon(json)        canonical token-level rendering of a JSON text (key order and duplicate keys kept)
+//   VerifDump(node, keys)   the representation of a node: raw / lazy / loaded tag, logical length, chunked storage
+//                           size and tail length, every cell (unset cells included), remaining unparsed input of a
+//                           lazy node, presence of the key index and what linkedPairs.Get answers for each key
+//   VerifAbs(node)          the JSON value the node stands for, computed without parsing or loading anything
+
+import (
+	"fmt"
+	"strconv"
+	"strings"
+	"unicode/utf8"
+
+	"github.com/bytedance/sonic/internal/native/types"
+)
+
+const verifHex = "0123456789abcdef"
+
+func verifHexTo(sb *strings.Builder, s string) {
+	for i := 0; i < len(s); i++ {
+		sb.WriteByte(verifHex[s[i]>>4])
+		sb.WriteByte(verifHex[s[i]&15])
+	}
+}
+
+type verifScan struct {
+	s   string
+	p   int
+	err error
+}
+
+func (v *verifScan) ws() {
+	for v.p < len(v.s) && (v.s[v.p] == ' ' || v.s[v.p] == '\t' || v.s[v.p] == '\n' || v.s[v.p] == '\r') {
+		v.p++
+	}
+}
+
+func (v *verifScan) fail(msg string) {
+	if v.err == nil {
+		v.err = fmt.Errorf("verif canon: %s at %d", msg, v.p)
+	}
+	v.p = len(v.s)
+}
+
+func verifHex4(s string) (rune, bool) {
+	if len(s) < 4 {
+		return 0, false
+	}
+	n, err := strconv.ParseUint(s[:4], 16, 32)
+	return rune(n), err == nil
+}
+
+// str decodes a JSON string literal starting at the opening quote.
+func (v *verifScan) str() string {
+	var out []byte
+	v.p++
+	for {
+		if v.p >= len(v.s) {
+			v.fail("unterminated string")
+			return string(out)
+		}
+		c := v.s[v.p]
+		switch {
+		case c == '"':
+			v.p++
+			return string(out)
+		case c == '\\':
+			if v.p+1 >= len(v.s) {
+				v.fail("bad escape")
+				return string(out)
+			}
+			e := v.s[v.p+1]
+			v.p += 2
+			switch e {
+			case '"', '\\', '/':
+				out = append(out, e)
+			case 'b':
+				out = append(out, '\b')
+			case 'f':
+				out = append(out, '\f')
+			case 'n':
+				out = append(out, '\n')
+			case 'r':
+				out = append(out, '\r')
+			case 't':
+				out = append(out, '\t')
+			case 'u':
+				r, ok := verifHex4(v.s[v.p:])
+				if !ok {
+					v.fail("bad \\u")
+					return string(out)
+				}
+				v.p += 4
+				if r >= 0xD800 && r < 0xDC00 && strings.HasPrefix(v.s[v.p:], "\\u") {
+					if r2, ok2 := verifHex4(v.s[v.p+2:]); ok2 && r2 >= 0xDC00 && r2 < 0xE000 {
+						r = 0x10000 + (r-0xD800)<<10 + (r2 - 0xDC00)
+						v.p += 6
+					}
+				}
+				var b [4]byte
+				n := utf8.EncodeRune(b[:], r)
+				out = append(out, b[:n]...)
+			default:
+				v.fail("bad escape")
+				return string(out)
+			}
+		default:
+			out = append(out, c)
+			v.p++
+		}
+	}
+}
+
+func (v *verifScan) value(sb *strings.Builder) {
+	v.ws()
+	if v.p >= len(v.s) {
+		v.fail("eof")
+		return
+	}
+	switch c := v.s[v.p]; {
+	case c == '{':
+		v.p++
+		sb.WriteByte('{')
+		v.members(sb)
+		sb.WriteByte('}')
+	case c == '[':
+		v.p++
+		sb.WriteByte('[')
+		v.elements(sb)
+		sb.WriteByte(']')
+	case c == '"':
+		sb.WriteByte('S')
+		verifHexTo(sb, v.str())
+	case c == 't' && strings.HasPrefix(v.s[v.p:], "true"):
+		v.p += 4
+		sb.WriteByte('T')
+	case c == 'f' && strings.HasPrefix(v.s[v.p:], "false"):
+		v.p += 5
+		sb.WriteByte('F')
+	case c == 'n' && strings.HasPrefix(v.s[v.p:], "null"):
+		v.p += 4
+		sb.WriteByte('Z')
+	case c == '-' || (c >= '0' && c <= '9'):
+		st := v.p
+		for v.p < len(v.s) && strings.IndexByte("+-.eE0123456789", v.s[v.p]) >= 0 {
+			v.p++
+		}
+		sb.WriteByte('N')
+		verifHexTo(sb, v.s[st:v.p])
+	default:
+		v.fail("unexpected character")
+	}
+}
+
+// elements renders the rest of an array: the scanner stands after '[' or after a ','.
+func (v *verifScan) elements(sb *strings.Builder) {
+	v.ws()
+	if v.p < len(v.s) && v.s[v.p] == ']' {
+		v.p++
+		return
+	}
+	for first := true; ; first = false {
+		if !first {
+			sb.WriteByte(',')
+		}
+		v.value(sb)
+		v.ws()
+		if v.p >= len(v.s) {
+			v.fail("eof in array")
+			return
+		}
+		if v.s[v.p] == ',' {
+			v.p++
+			continue
+		}
+		if v.s[v.p] == ']' {
+			v.p++
+			return
+		}
+		v.fail("expected , or ]")
+		return
+	}
+}
+
+func (v *verifScan) members(sb *strings.Builder) {
+	v.ws()
+	if v.p < len(v.s) && v.s[v.p] == '}' {
+		v.p++
+		return
+	}
+	for first := true; ; first = false {
+		if !first {
+			sb.WriteByte(',')
+		}
+		v.ws()
+		if v.p >= len(v.s) || v.s[v.p] != '"' {
+			v.fail("expected key")
+			return
+		}
+		verifHexTo(sb, v.str())
+		v.ws()
+		if v.p >= len(v.s) || v.s[v.p] != ':' {
+			v.fail("expected :")
+			return
+		}
+		v.p++
+		sb.WriteByte(':')
+		v.value(sb)
+		v.ws()
+		if v.p >= len(v.s) {
+			v.fail("eof in object")
+			return
+		}
+		if v.s[v.p] == ',' {
+			v.p++
+			continue
+		}
+		if v.s[v.p] == '}' {
+			v.p++
+			return
+		}
+		v.fail("expected , or }")
+		return
+	}
+}
+
+// VerifCanon renders a JSON text as  Z T F N<hex of literal> S<hex of decoded string> [v,...] {<hex key>:v,...}
+func VerifCanon(json string) (string, error) {
+	var sb strings.Builder
+	sc := &verifScan{s: json}
+	sc.value(&sb)
+	sc.ws()
+	if sc.err == nil && sc.p != len(json) {
+		sc.fail("trailing characters")
+	}
+	return sb.String(), sc.err
+}
+
+func verifCanonOrErr(json string) string {
+	s, err := VerifCanon(json)
+	if err != nil {
+		return "?(" + err.Error() + ")"
+	}
+	return s
+}
+
+// the canonical rendering of the input a lazy node's parser has not consumed yet
+func verifRest(p *Parser, object bool) string {
+	var sb strings.Builder
+	sc := &verifScan{s: p.s, p: p.p}
+	if object {
+		sc.members(&sb)
+	} else {
+		sc.elements(&sb)
+	}
+	if sc.err != nil {
+		return "?(" + sc.err.Error() + ")"
+	}
+	return sb.String()
+}
+
+func verifDumpNodes(sb *strings.Builder, s *linkedNodes, keys []string) {
+	fmt.Fprintf(sb, "<%d/%d", s.size, len(s.tail))
+	for i := 0; i < s.size; i++ {
+		sb.WriteByte(';')
+		verifDump(sb, s.At(i), keys)
+	}
+	sb.WriteByte('>')
+}
+
+func verifGet(s *linkedPairs, key string) (r string) {
+	defer func() {
+		if recover() != nil {
+			r = "p"
+		}
+	}()
+	_, i := s.Get(key)
+	if i < 0 {
+		return "-"
+	}
+	return strconv.Itoa(i)
+}
+
+func verifDumpPairs(sb *strings.Builder, s *linkedPairs, keys []string) {
+	if s.index != nil {
+		sb.WriteString("<i")
+	} else {
+		sb.WriteString("<n")
+	}
+	fmt.Fprintf(sb, "%d/%d", s.size, len(s.tail))
+	for i := 0; i < s.size; i++ {
+		sb.WriteByte(';')
+		p := s.At(i)
+		if p == nil {
+			sb.WriteString("nil")
+			continue
+		}
+		verifHexTo(sb, p.Key)
+		sb.WriteByte('=')
+		verifDump(sb, &p.Value, keys)
+	}
+	if s.index != nil {
+		sb.WriteByte('!')
+		for i, k := range keys {
+			if i > 0 {
+				sb.WriteByte(',')
+			}
+			sb.WriteString(verifGet(s, k))
+		}
+	}
+	sb.WriteByte('>')
+}
+
+func verifDump(sb *strings.Builder, n *Node, keys []string) {
+	if n == nil {
+		sb.WriteString("nil")
+		return
+	}
+	t := n.t
+	switch {
+	case t == _V_NONE:
+		sb.WriteByte('_')
+	case t == V_ERROR:
+		fmt.Fprintf(sb, "E%d", n.l)
+	case t&_V_RAW != 0:
+		if n.m != nil {
+			sb.WriteString("R1(")
+		} else {
+			sb.WriteString("R0(")
+		}
+		sb.WriteString(verifCanonOrErr(n.toString()))
+		sb.WriteByte(')')
+	case t == types.V_NULL:
+		sb.WriteByte('Z')
+	case t == types.V_TRUE:
+		sb.WriteByte('T')
+	case t == types.V_FALSE:
+		sb.WriteByte('F')
+	case t == _V_NUMBER:
+		sb.WriteByte('#')
+		verifHexTo(sb, n.toString())
+	case t == types.V_STRING:
+		sb.WriteByte('$')
+		verifHexTo(sb, n.toString())
+	case t == _V_ARRAY_LAZY:
+		st := (*parseArrayStack)(n.p)
+		fmt.Fprintf(sb, "LA%d", n.l)
+		verifDumpNodes(sb, &st.v, keys)
+		sb.WriteByte('(')
+		sb.WriteString(verifRest(&st.parser, false))
+		sb.WriteByte(')')
+	case t == _V_OBJECT_LAZY:
+		st := (*parseObjectStack)(n.p)
+		fmt.Fprintf(sb, "LO%d", n.l)
+		verifDumpPairs(sb, &st.v, keys)
+		sb.WriteByte('(')
+		sb.WriteString(verifRest(&st.parser, true))
+		sb.WriteByte(')')
+	case t == types.V_ARRAY:
+		fmt.Fprintf(sb, "A%d", n.l)
+		if n.p == nil {
+			sb.WriteString("nil")
+		} else {
+			verifDumpNodes(sb, (*linkedNodes)(n.p), keys)
+		}
+	case t == types.V_OBJECT:
+		fmt.Fprintf(sb, "O%d", n.l)
+		if n.p == nil {
+			sb.WriteString("nil")
+		} else {
+			verifDumpPairs(sb, (*linkedPairs)(n.p), keys)
+		}
+	case t == _V_ANY:
+		sb.WriteByte('Y')
+	default:
+		fmt.Fprintf(sb, "?t%d", t)
+	}
+}
+
+// VerifDump renders the internal representation of a node (see the header); it never parses or loads.
+func VerifDump(n *Node, keys []string) string {
+	var sb strings.Builder
+	verifDump(&sb, n, keys)
+	return sb.String()
+}
+
+func verifAbs(sb *strings.Builder, n *Node) {
+	t := n.t
+	switch {
+	case t&_V_RAW != 0:
+		sb.WriteString(verifCanonOrErr(n.toString()))
+	case t == types.V_NULL:
+		sb.WriteByte('Z')
+	case t == types.V_TRUE:
+		sb.WriteByte('T')
+	case t == types.V_FALSE:
+		sb.WriteByte('F')
+	case t == _V_NUMBER:
+		sb.WriteByte('N')
+		verifHexTo(sb, n.toString())
+	case t == types.V_STRING:
+		sb.WriteByte('S')
+		verifHexTo(sb, n.toString())
+	case t == _V_ARRAY_LAZY, t == types.V_ARRAY:
+		var s *linkedNodes
+		rest := ""
+		if t == _V_ARRAY_LAZY {
+			st := (*parseArrayStack)(n.p)
+			s = &st.v
+			rest = verifRest(&st.parser, false)
+		} else {
+			s = (*linkedNodes)(n.p)
+		}
+		sb.WriteByte('[')
+		started := false
+		for i := 0; i < s.Len(); i++ {
+			c := s.At(i)
+			if c == nil || !c.Exists() {
+				continue
+			}
+			if started {
+				sb.WriteByte(',')
+			}
+			started = true
+			verifAbs(sb, c)
+		}
+		if rest != "" {
+			if started {
+				sb.WriteByte(',')
+			}
+			sb.WriteString(rest)
+		}
+		sb.WriteByte(']')
+	case t == _V_OBJECT_LAZY, t == types.V_OBJECT:
+		var s *linkedPairs
+		rest := ""
+		if t == _V_OBJECT_LAZY {
+			st := (*parseObjectStack)(n.p)
+			s = &st.v
+			rest = verifRest(&st.parser, true)
+		} else {
+			s = (*linkedPairs)(n.p)
+		}
+		sb.WriteByte('{')
+		started := false
+		for i := 0; i < s.Len(); i++ {
+			c := s.At(i)
+			if c == nil || !c.Value.Exists() {
+				continue
+			}
+			if started {
+				sb.WriteByte(',')
+			}
+			started = true
+			verifHexTo(sb, c.Key)
+			sb.WriteByte(':')
+			verifAbs(sb, &c.Value)
+		}
+		if rest != "" {
+			if started {
+				sb.WriteByte(',')
+			}
+			sb.WriteString(rest)
+		}
+		sb.WriteByte('}')
+	default:
+		fmt.Fprintf(sb, "?t%d", t)
+	}
+}
+
+// VerifAbs renders the JSON value a node stands for (canonical form of VerifCanon) without changing the node.
+func VerifAbs(n *Node) string {
+	if n == nil {
+		return "nil"
+	}
+	var sb strings.Builder
+	verifAbs(&sb, n)
+	return sb.String()
+}
+
+// VerifRepr: 0 none, 1 error, 2 raw, 3 lazy, 4 loaded container, 5 scalar, 6 any.
+func VerifRepr(n *Node) int {
+	if n == nil {
+		return 0
+	}
+	t := n.t
+	switch {
+	case t == _V_NONE:
+		return 0
+	case t == V_ERROR:
+		return 1
+	case t&_V_RAW != 0:
+		return 2
+	case t&_V_LAZY != 0:
+		return 3
+	case t == types.V_ARRAY || t == types.V_OBJECT:
+		return 4
+	case t == _V_ANY:
+		return 6
+	}
+	return 5
+}
+
+// VerifErrCode: the ParsingError code of an error node (33 not found, 34 unsupported type), -1 otherwise.
+func VerifErrCode(n *Node) int {
+	if n == nil || n.t != V_ERROR {
+		return -1
+	}
+	return int(n.l)
+}
